@@ -79,7 +79,8 @@ def inline_pred(name):
 
 class Spec:
     def __init__(self, key, find, widths, inv, pre=none, self_base=SELF, doc="", allow_panic=None, inline=inline_pred, group=None, unroll=None,
-                 post_ok=None):
+                 post_ok=None, gen=None):
+        self.gen = gen or {}          # const generic arguments fixed for the analysis (table flags off: the non-table implementation)
         self.unroll = unroll
         self.post_ok = post_ok
         self.inv_on_err = False
@@ -151,6 +152,7 @@ def analyse(F, spec, w, extra_contracts=None):
 
     wk = numabs.NumWalker(b, cfg, F, contracts.C if extra_contracts is None else extra_contracts, assume)
     wk.inline = spec.inline
+    wk.gen_map = dict(spec.gen)
     if spec.unroll is not None:
         # bounded unrolling instead of loop summaries (loops with a small fixed trip bound)
         wk.loops = {}
@@ -305,20 +307,34 @@ def code_inline(name):
     return False
 
 
+_BE = "traits::endianness::BigEndian"
+_OFF = {"USE_TABLE": "false", "USE_DELTA_TABLE": "false", "USE_GAMMA_TABLE": "false"}
+NONTABLE = {
+    "gamma.write": (dict(name="write_gamma_param", trait_is="codes::gamma::GammaWriteParam<%s>" % _BE), _OFF),
+    "gamma.read": (dict(name="read_gamma_param", trait_is="codes::gamma::GammaReadParam<%s>" % _BE), _OFF),
+    "delta.write": (dict(name="write_delta_param", trait_is="codes::delta::DeltaWriteParam<%s>" % _BE), _OFF),
+    "delta.read": (dict(name="read_delta_param", trait_is="codes::delta::DeltaReadParam<%s>" % _BE), _OFF),
+    "zeta.write": (dict(name="write_zeta_param", trait_is="codes::zeta::ZetaWriteParam<%s>" % _BE), {}),
+    "zeta.read": (dict(name="read_zeta_param", trait_is="codes::zeta::ZetaReadParam<%s>" % _BE), {}),
+}
+
+
 def code_specs():
     out = []
     nmax = U64MAX - 1
-    def S(key, find, pre=none, doc="", unroll=None):
-        out.append(Spec(key, find, [64], no_inv, pre=pre, doc=doc, inline=code_inline, group="codes", unroll=unroll))
+    def S(key, find, pre=none, doc="", unroll=None, gen=None):
+        out.append(Spec(key, find, [64], no_inv, pre=pre, doc=doc, inline=code_inline, group="codes", unroll=unroll, gen=gen))
     k63 = lambda i, nm: both(arg_le(i, nm, 63))
-    S("gamma.write", dict(path="codes::gamma::default_write_gamma"), arg_le(2, "n", nmax), "n <= 2^64-2")
-    S("gamma.read", dict(path="codes::gamma::default_read_gamma"))
+    # the non-table implementations are reached through the public *_param methods with the table flags off (the private
+    # functions behind them are walked in context, whatever they are called)
+    S("gamma.write", NONTABLE["gamma.write"][0], arg_le(2, "n", nmax), "n <= 2^64-2", gen=NONTABLE["gamma.write"][1])
+    S("gamma.read", NONTABLE["gamma.read"][0], gen=NONTABLE["gamma.read"][1])
     S("gamma.len", dict(path="codes::gamma::len_gamma_param"), arg_le(1, "n", nmax))
-    S("delta.write", dict(path="codes::delta::default_write_delta"), arg_le(2, "n", nmax))
-    S("delta.read", dict(path="codes::delta::default_read_delta"))
+    S("delta.write", NONTABLE["delta.write"][0], arg_le(2, "n", nmax), gen=NONTABLE["delta.write"][1])
+    S("delta.read", NONTABLE["delta.read"][0], gen=NONTABLE["delta.read"][1])
     S("delta.len", dict(path="codes::delta::len_delta_param"), arg_le(1, "n", nmax))
-    S("zeta.write", dict(path="codes::zeta::default_write_zeta"), both(arg_le(2, "n", nmax), arg_ge(3, "k", 1), arg_le(3, "k", 63)))
-    S("zeta.read", dict(path="codes::zeta::default_read_zeta"), both(arg_ge(2, "k", 1), arg_le(2, "k", 63)))
+    S("zeta.write", NONTABLE["zeta.write"][0], both(arg_le(2, "n", nmax), arg_ge(3, "k", 1), arg_le(3, "k", 63)))
+    S("zeta.read", NONTABLE["zeta.read"][0], both(arg_ge(2, "k", 1), arg_le(2, "k", 63)))
     S("zeta.len", dict(path="codes::zeta::len_zeta_param"), both(arg_le(1, "n", nmax), arg_ge(2, "k", 1), arg_le(2, "k", 63)))
     S("minimal_binary.write", dict(path="codes::minimal_binary::MinimalBinaryWrite::write_minimal_binary"),
       lambda num, w: [le(const(1), num.aff(("arg", 3, "arg3"))), lt(num.aff(("arg", 2, "arg2")), num.aff(("arg", 3, "arg3")))], "max >= 1, n < max")
